@@ -9,7 +9,7 @@ import streamlib as sl
 from vlib import build_lib
 
 THEOREMS = ["C12_loadDict_inv", "C12_loadDict_hist", "C12_loadDict_roundtrip", "C12_attach_inv", "C12_attach_roundtrip", "C12_dictctx_unchanged", "C12_hc_mid_loadDict", "C12_hc_mid_loadDict_roundtrip", "C12_hc_mid_attach_roundtrip", "C12_hc_mid_saveDict_attached", "C12_hc_chain_loadDict", "C12_hc_chain_loadDict_roundtrip", "C12_hc_chain_attach_roundtrip", "C12_hc_opt_loadDict", "C12_hc_opt_loadDict_roundtrip", "C12_hc_opt_attach_roundtrip"]
-ORACLES = ["stream"]
+ORACLES = ["stream", "framec"]
 CORRESPONDENCE = ["Model.HcOptStream = Model.HcTabStream (the streaming layer of HcChainStream, parametric in the block compressor) instantiated with the compressor of the level (LZ4HC_compress_hashChain 3-9, LZ4HC_compress_optimal 10-12 with nbSearches / targetLength / ultra / favorDecSpeed; LZ4_favorDecompressionSpeed; histories may change strategy chain <-> opt) == lib/lz4hc.c: return value, consumed, bytes, md5 of hashTable and chainTable, nextToUpdate, end/prefixStart/dictStart, dictLimit/lowLimit, level, dirty, favorDecSpeed, dictCtx null/non-null after EVERY mirrored call; level 10-12 calls on more than streamlib.OPT_MODEL_MAX input bytes are not mirrored (extracted optimal parser too slow): direct oracles, state re-imported afterwards",
                   "Model.HcChainStream (HC levels 3-9, the same API functions with their strat != lz4mid branches: LZ4HC_Insert in loadDictHC and setExternalDict, LZ4HC_clearTables, LZ4HC_compress_hashChain with nbSearches of the level, dictCtx copied / detached; histories that stay inside the hash-chain strategy) == lib/lz4hc.c: return value, consumed, bytes, md5 of the whole hashTable and of the chainTable, nextToUpdate, end/prefixStart/dictStart (arena addresses), dictLimit/lowLimit, level, dirty, dictCtx null/non-null after EVERY mirrored call; a change of strategy inside a history, levels >= 10 and the dictionary-context search LZ4HC_searchExtDict are outside the model (state re-imported afterwards)",
                   "Model.HcMidStream (HC levels 1-2: initStreamHC, resetStreamHC(_fast), setCompressionLevel, loadDictHC/LZ4MID_fillHTable, attach_HC_dictionary with the dictionary context copied / detached / searched in place (LZ4MID_searchExtDict = Model.HcMidDict), setExternalDict, overlap trimming, 2 GB reload, compress_HC_continue(_destSize), saveDictHC (fixes F17, F18), extStateHC(_fastReset)) == lib/lz4hc.c: return value, consumed, bytes, both LZ4MID hash tables, end/prefixStart/dictStart (arena addresses), dictLimit/lowLimit/nextToUpdate, level, dirty, dictCtx null/non-null after EVERY mirrored call; calls at levels >= 3 or searching a dictionary context whose stream is at a level >= 3 (LZ4MID_searchHCDict) are outside the model (state re-imported afterwards)",
@@ -25,14 +25,14 @@ RULE = ("dictionary sizes 0..13, 16, 40, 100, 1000, 4000, 4096, 20000, 64KB-1, 6
         "non-trivial = an emitted block with at least one match reaching into the dictionary / history; distinct = distinct (source, block, history length)")
 TRUSTED = ["hand-written model Model/FastStream.v (see C11), tied by exact state comparison after every operation",
            "HC dictionary paths (loadDictHC, attach_HC_dictionary, isStateCompatible, MID tables) are not modelled in Coq: direct oracle only",
-           "LZ4F CDict/usingDict frames are the subject of C03 (frame layer), not of this check",
+           "LZ4F CDict/usingDict frames (`lz4f_dict` cases) run through C03's machinery: Model.FrameC correspondence per call, every compressed block re-validated against the dictionary ++ history, the frame decoded by the extracted specification decoder and by the real LZ4F_decompress_usingDict given the same dictionary bytes; the LZ4F_CDict object itself is opaque (its read-onlyness is that of the two prepared streams inside it, covered at block level)",
            "concurrent use of one prepared dictionary is argued from read-onlyness: the model's compress has no output for the dictionary context and the C object is "
            "compared byte-wise before/after every use; the C memory model itself is not formalised"]
 ASSUMPTIONS = ["64-bit little-endian target", "the dictionary stream and buffer stay in place and unmodified while attached (documented)",
                "a dictionary is attached to a working stream that was just reset (documented for HC; since fix F12 also enforced by the fast attach itself)"]
 
 def build(tier):
-    return {"lib": build_lib("default"), "model": True}
+    return {"lib": build_lib("default"), "model": True, "framec_lib": build_lib("framec")}
 
 def gen_cases(tier, seed):
     rng = random.Random(seed)
@@ -66,15 +66,32 @@ def gen_cases(tier, seed):
     for i in range(k):
         ab.append({"bseed": rng.randrange(1 << 48), "kind": "attach_abandoned_" + ("f" if i % 3 else "h"), "fam": "f" if i % 3 else "h", "arena": 1 << 17})
     cases = cases[:4] + ab + cases[4:]
+    # dictionaries through the frame layer: LZ4F_compressBegin_usingDict / _usingCDict / compressFrame_usingCDict with dictionaries
+    # of 100 bytes .. 100 KB (LZ4F_createCDict keeps the LAST 64 KB), content drawn from the same stream as the dictionary
+    for i in range({"quick": 16, "search": 40, "thorough": 120}[tier]):
+        cases.append({"bseed": rng.randrange(1 << 48), "kind": "lz4f_dict", "seed": rng.randrange(1 << 48), "tier": "quick" if tier == "search" else tier,
+                      "force_dk": ["d", "c", "c"]})
     if tier == "search":
         # failing-input search: the real code alone, judged by the property oracles (a model mismatch would stop a script early)
         for c in cases:
             c["model"] = False
     return cases
 
-worker_init = sl.worker_init
+def worker_init(ctx):
+    from capi import Lib
+    st = sl.worker_init(ctx)
+    st["fc"] = {"L": Lib(ctx["framec_lib"]), "oracle": Oracle(name="framec")}
+    return st
 
 def run_case(st, case):
+    if case["kind"] == "lz4f_dict":
+        import framelib
+        out = framelib.run_session_case(st["fc"], dict(case, kind="session"), "c03")
+        for r in out:
+            r["kind"] = "lz4f_dict"
+            if r.get("what"):
+                r["what"] = "LZ4F frame with a dictionary: " + r["what"]
+        return out
     if case["kind"].startswith("attach_abandoned"):
         return sl.run_scenario(st, case, lambda S, rng: sl.scen_attach_abandoned(S, rng, case["fam"], {}))
     if case["kind"] == "corpus_F18":
